@@ -167,7 +167,7 @@ def main(prop, tier, seed, replay_path=None):
         raise MachineryError("C02 self-test: wrong reference ESS accepted")
     rc, n_unlisted, known = verdict.finish()
     distinct = {(tuple(sorted(c["ks"])), tuple(c["split"])) for _, c, _, _ in todo if len(set(c["ks"])) > 1}
-    cov = {"states": 1, "transitions": 1, "traces_validated_against_impl": n_eval,
+    cov = {"states": int(max(1, r.distinct)), "transitions": int(max(1, r.generated)), "traces_validated_against_impl": n_eval,
            "samples": [{"case": todo[0][1]}, {"case": todo[len(todo) // 2][1]}],
            "evaluations": n_eval, "distinct_nontrivial": len(distinct),
            "rule": "cases = exponent sequences (N rows, k in {-inf,-3..3}) x splits of k into (ll, lp, lq) enumerated by TLC from Weights.tla, each replayed for namespaces x widths x shifts {0, +-2^17}; distinct = distinct (multiset of exponents, split) with at least two different weights",
